@@ -102,7 +102,8 @@ def enumerate_cases(tier):
     # (2) owned schedules through the _mp code paths
     for case in c07.enumerate_cases("quick"):
         if case.get("family") == "holder-waiter-passer-by" or (
-                case["mode"] == "enum" and c07.conflicting(*case["calls"]) and case["start_name"] in ("empty", "p=X", "p=Y")):
+                case["mode"] == "enum" and "i_mod" not in case and c07.conflicting(*case["calls"])
+                and case["start_name"] in ("empty", "p=X", "p=Y")):
             yield dict(case, family="owned", src="C07")
     for case in c12.enumerate_cases("quick"):
         if case.get("family") == "holder-waiter-passer-by" or (case["mode"] == "enum" and case.get("max_preempt", 1) == 1
